@@ -10,7 +10,7 @@ NAMES = ["prog", "a-b", "x.y", "ls", "P_1", "if", "then", "else", "fi", "do", "d
          "until", "for", "in", "elif"]
 POSIX_RESERVED = {"if", "then", "else", "elif", "fi", "do", "done", "case", "esac", "while", "until", "for", "in"}
 BASH_ONLY = {"function", "select", "time", "coproc"}
-META = list(" \t\n'\"\\$`*?[]#~=%!{}()<>&;|^@:+") + ["é", " ", " ", "中", "\U0001f600", "\x7f", "\x01", "\x1b"]
+META = list(" \t\n'\"\\$`*?[]#~=%!{}()<>&;|^@:+") + ["é", " ", " ", "中", "\U0001f600", "\x7f", "\x01", "\x1b", "\ufffd", "\ufeff"]
 NICE = list("abzAZ09-_.,/")
 # quoting does not hide a builtin utility: sh never looks these up on PATH, however they are written
 SH_BUILTIN_NAMES = {".", "..", "hplain"} | set(". : [ alias bg break cd chdir command continue echo eval exec exit export false fg getopts "
@@ -49,6 +49,9 @@ def gen(ctx):
         single.append(["A" + ch, ch])
     single.append(["prog", ""])
     single.append(["prog", "x | y", " | ", "a |\n b", "|", " |", "| "])
+    # characters that LOOK like the trace of a lossy conversion (U+FFFD) are ordinary valid Unicode
+    single.append(["echo", "bad byte shown as \ufffd", "\ufffd"])
+    single.append(["pro\ufffdg", "x"])
     single.append(["prog", "", "", "x"])
     single.append(["printf", "%s|", "", "x"])
     single.append(["", "x"])
@@ -73,6 +76,7 @@ def gen(ctx):
         pipes.append(st)
     # arguments that look like the pipeline's own separator
     pipes.append([["prog", "x | y"], ["P_1", " | "]])
+    pipes.append([["prog", "\ufffd"], ["ls", "a\ufffdb"]])
     pipes.append([["prog", "a |\n    b", "|"], ["ls", " |", "| "], ["a-b", "'| |'"]])
     return single, pipes
 
@@ -185,7 +189,7 @@ def check(ctx):
         ctx.broken_correspondence({"what": f"answer count mismatch impl={len(impl)} model={len(model)} cases={len(cases)}"})
         return
     # the pretty Debug form, where it differs from the plain one, rides along as ` alt=<hex>`
-    alts = [next((t[4:] for t in a.split()[2:] if t.startswith("alt=")), None) for a in impl]
+    alts = [sorted({t[4:] for t in a.split()[2:] if t.startswith("alt=")}) for a in impl]
     impl = [" ".join(a.split()[:2]) if a.startswith("ok ") else a for a in impl]
     cov["pretty_forms_differing"] = sum(1 for x in alts if x)
     # (A) renderer correspondence
@@ -204,12 +208,12 @@ def check(ctx):
         if not a.startswith("ok "):
             continue
         t = a.split()[1]
-        if alt:
-            # `{:#?}` printed something else than `{:?}`: that text must evaluate to the same command(s)
-            if k == "sh":
-                reqs.append(f"words {alt}"); meta.append(("words", c, alt))
-            else:
-                reqs.append(f"cmds {shdir} {alt}"); meta.append(("cmds", c, alt))
+        for al in alt:
+            # a Debug form printed something else than the command line: that text must evaluate to the same command(s)
+            if k in ("sh", "sha"):
+                reqs.append(f"words {al}"); meta.append(("words", c if k == "sh" else c[1], al))
+            elif k == "shp":
+                reqs.append(f"cmds {shdir} {al}"); meta.append(("cmds", c, al))
         if k == "sha":
             k, c = "sh", c[1]
         if k == "she":
